@@ -245,3 +245,53 @@ def check_live(ctx, funcs: typing.Iterable[FuncInfo], rule="LIVE", shared=None):
       else:
         ctx.ok(rule, key, ctx.where(f.module, loop), f"live view of {group} of `{recv}`; no mutation of it in the body")
   return n_loops, n_live
+
+
+def check_live_self_alias(ctx, funcs: typing.Iterable[FuncInfo], rule="LIVE-alias", shared=None):
+  """A method that iterates a live view of `self` and, in the loop, calls a mutator of the same storage group on another
+  parameter declared with the method's own class (`copy_to(self, dest: Region)`): nothing stops a caller from passing the
+  object itself, and then the loop feeds the list it is reading - it never ends.  Accepted: a dominating `if dest is self: return`."""
+  ix = ctx.ix
+  shared = shared if shared is not None else {}
+  mf = shared.get("mf") or ModelFacts(ix)
+  shared["mf"] = mf
+  from ..cfg import CFG
+  n = 0
+  for f in funcs:
+    if f.cls is None or f.is_static or len(f.params) < 2 or f.params[0] != "self":
+      continue
+    own = {c.name for c in ix.mro(f.cls)}
+    others = []
+    for a in f.node.args.args[1:]:
+      if a.annotation is not None and any((isinstance(x, ast.Name) and x.id in own) or (isinstance(x, ast.Attribute) and x.attr in own) or (isinstance(x, ast.Constant) and x.value in own)
+                                          for x in ast.walk(a.annotation)):
+        others.append(a.arg)
+    if not others:
+      continue
+    cfg = dom = None
+    for loop in own_nodes(f.node):
+      if not isinstance(loop, ast.For):
+        continue
+      it = loop.iter
+      if not (isinstance(it, ast.Call) and isinstance(it.func, ast.Attribute) and isinstance(it.func.value, ast.Name) and it.func.value.id == "self" and it.func.attr in mf.views):
+        continue
+      group = mf.views[it.func.attr]
+      if not _sequence_backed(mf, group):
+        continue        # a dictionary whose existing keys are set again keeps its size: the iteration is not disturbed
+      for c in own_nodes(loop):
+        if isinstance(c, ast.Call) and isinstance(c.func, ast.Attribute) and isinstance(c.func.value, ast.Name) and c.func.value.id in others \
+            and group in mf.mutators.get(c.func.attr, ()):
+          d = c.func.value.id
+          n += 1
+          if cfg is None:
+            cfg = CFG(f.node)
+            dom = cfg.dominators()
+          guards = [g for g in cfg.nodes if g.kind == "test" and isinstance(g.ast, ast.If) and unparse(g.ast.test).replace(" ", "") in (f"{d}isself", f"selfis{d}")
+                    and g.ast.body and isinstance(g.ast.body[-1], ast.Return)]
+          lid = cfg.node_of(loop)
+          ok = any(g.id in dom.get(lid, ()) for g in guards)
+          ctx.check(ok, rule, f"{f.qualname}|for {unparse(loop.target)} in {unparse(it)}|{d}.{c.func.attr}", ctx.where(f.module, c),
+                    f"`if {d} is self: return` dominates the loop",
+                    f"{f.short} iterates the live view `{unparse(it)}` and calls `{d}.{c.func.attr}(...)` in the loop; `{d}` is declared a {f.cls.name}, so it can be the object itself, "
+                    f"and no `if {d} is self: return` precedes the loop: `x.{f.name}(x)` then appends to the list it is reading and never returns")
+  return n
